@@ -92,6 +92,20 @@ def run(chk, repo, tier):
             return unparse(a_.value.func.value) in returned
         return False
     stores = [n for n in cfg.nodes.values() if n.kind == 'stmt' and n.ast is not None and writes_result(n.ast)]
+    # `result.update(part)` where `part` is a local dict filled in this function: what matters is when `part` gets entries
+    for n in list(stores):
+        a_ = n.ast
+        if isinstance(a_, ast.Expr) and isinstance(a_.value, ast.Call) and a_.value.func.attr == 'update' and a_.value.args \
+                and isinstance(a_.value.args[0], ast.Name):
+            part = a_.value.args[0].id
+            fills = [m_ for m_ in cfg.nodes.values() if m_.kind == 'stmt' and isinstance(m_.ast, ast.Assign)
+                     and isinstance(m_.ast.targets[0], ast.Subscript) and unparse(m_.ast.targets[0].value) == part]
+            empty0 = any(isinstance(m_.ast, ast.Assign) and unparse(m_.ast.targets[0]) == part
+                         and isinstance(m_.ast.value, (ast.Dict, ast.Call)) and not getattr(m_.ast.value, 'keys', None)
+                         and not getattr(m_.ast.value, 'args', None) for m_ in cfg.nodes.values() if m_.kind == 'stmt' and m_.ast is not None)
+            if fills and empty0:
+                stores.remove(n)
+                stores += fills
     from sa import guards as G
     other_object = G.compare_atom(ast.IsNot, ast.Is)
     if not stores:
@@ -113,24 +127,27 @@ def run(chk, repo, tier):
                               'invalid estimates')
     # Model._canonicalize_parameter_estimates
     mc = repo.cls('pharmpy.model.model.Model')
-    cp = mc.methods.get('_canonicalize_parameter_estimates')
-    if cp is None:
-        raise AnalysisError('Model._canonicalize_parameter_estimates not found')
-    cfg = CFG(cp.node)
-    repl = [n for n in cfg.nodes.values() if isinstance(n.ast, ast.Assign) and 'set_initial_estimates' in unparse(n.ast.value)]
+    # the canonicalisation step: the helper method, or - when it was folded into its callers - the functions that contain the
+    # validate / repair sequence themselves
+    hosts = canon_hosts(mc)
     # "validation fails" = the false edge of a validate_parameters(...) call, however the test is written
     def invalid(e):
         return False if isinstance(e, ast.Call) and unparse(e.func).endswith('validate_parameters') else None
-    if not repl:
-        raise AnalysisError('_canonicalize_parameter_estimates: replacement site not found')
-    for r in repl:
-        ok = bool(G.guarded(cfg, r.id, invalid))
-        chk.instance(V1, f'_canonicalize_parameter_estimates: `{r.text()}` only when validation fails: {ok}')
-        if not ok:
-            chk.violation(V1, mc.module.rel, cp.qualname, r.text(), 'estimates are replaced although they validate',
-                          line=r.line, witness='valid initial estimates are altered by Model.create / replace')
-    sites = [fn for fn in mc.methods.values() for c in calls_in(fn.node)
-             if unparse(c.func).endswith('_canonicalize_parameter_estimates')]
+    for cp in hosts:
+        cfg = CFG(cp.node)
+        repl = [n for n in cfg.nodes.values() if isinstance(n.ast, ast.Assign) and 'set_initial_estimates' in unparse(n.ast.value)
+                and any('nearest' in unparse(x) for x in ast.walk(n.ast.value))
+                or isinstance(n.ast, ast.Assign) and 'set_initial_estimates' in unparse(n.ast.value) and len(hosts) == 1]
+        if not repl:
+            raise AnalysisError(f'{cp.name}: replacement of the estimates by the repaired ones not found')
+        for r in repl:
+            ok = bool(G.guarded(cfg, r.id, invalid))
+            chk.instance(V1, f'{cp.name}: `{r.text()}` only when validation fails: {ok}')
+            if not ok:
+                chk.violation(V1, mc.module.rel, cp.qualname, r.text(), 'estimates are replaced although they validate',
+                              line=r.line, witness='valid initial estimates are altered by Model.create / replace')
+    MARK = canon_marker(mc)
+    sites = [fn for fn in mc.methods.values() for c in calls_in(fn.node) if unparse(c.func).endswith(MARK)]
     names_ = sorted({s_.name for s_ in sites})
     chk.instance(V1, f'_canonicalize_parameter_estimates called from {names_}')
     if not {'create', 'replace'} <= set(names_):
@@ -141,6 +158,23 @@ def run(chk, repo, tier):
     run_v6(chk, repo)
     run_v7_v9(chk, repo)
     run_v10_v12(chk, repo)
+
+
+def canon_hosts(mc):
+    cp = mc.methods.get('_canonicalize_parameter_estimates')
+    if cp is not None:
+        return [cp]
+    hosts = [f for nm in ('create', 'replace') for f in [mc.methods.get(nm)] if f is not None and any(
+        isinstance(c, ast.Call) and unparse(c.func).endswith('nearest_valid_parameters') for c in ast.walk(f.node))]
+    if len(hosts) < 2:
+        raise AnalysisError('Model._canonicalize_parameter_estimates not found (and Model.create / Model.replace do not both '
+                            'contain the validate / repair sequence)')
+    return hosts
+
+
+def canon_marker(mc):
+    return '_canonicalize_parameter_estimates' if mc.methods.get('_canonicalize_parameter_estimates') is not None \
+        else 'validate_parameters'
 
 
 def run_more(chk, repo, mc):
@@ -206,8 +240,10 @@ def run_more(chk, repo, mc):
             raise AnalysisError(f'Model.{name} not found')
         cfg = CFG(f.node)
         canon = {n.id for n in cfg.nodes.values() if n.ast is not None and n.kind in ('stmt', 'return')
-                 and any(unparse(c.func).endswith('_canonicalize_parameter_estimates')
-                         for c in ast.walk(n.ast) if isinstance(c, ast.Call))}
+                 and any(unparse(c.func).endswith(canon_marker(mc))
+                         for c in ast.walk(n.ast) if isinstance(c, ast.Call))} | {
+            n.id for n in cfg.nodes.values() if n.kind == 'test' and n.ast is not None and canon_marker(mc) == 'validate_parameters'
+            and any(isinstance(c, ast.Call) and unparse(c.func).endswith('validate_parameters') for c in ast.walk(n.ast))}
         rets = [n for n in cfg.nodes.values() if n.kind == 'return' and n.ast.value is not None]
         if not canon or not rets:
             raise AnalysisError(f'Model.{name}: canonicalisation call or return not found')
@@ -409,13 +445,11 @@ def run_v10_v12(chk, repo):
     V11 = chk.rule('V11', '_canonicalize_parameter_estimates: what nearest_valid_parameters returns is written back as it is '
                           '(no filtering of "unchanged" entries)', floor=1)
     mc = repo.cls('pharmpy.model.model.Model')
-    cp = mc.methods.get('_canonicalize_parameter_estimates')
-    if cp is None:
-        raise AnalysisError('Model._canonicalize_parameter_estimates not found')
-    cfg = CFG(cp.node)
     n11 = 0
-    for nd in cfg.nodes.values():
+    for cp, cfg, nd in [(h_, c_, n_) for h_ in canon_hosts(mc) for c_ in [CFG(h_.node)] for n_ in c_.nodes.values()]:
         if nd.kind != 'stmt' or nd.ast is None:
+            continue
+        if len(canon_hosts(mc)) > 1 and 'nearest' not in unparse(nd.ast):
             continue
         for c in [x for x in ast.walk(nd.ast) if isinstance(x, ast.Call) and isinstance(x.func, ast.Attribute)
                   and x.func.attr == 'set_initial_estimates' and x.args]:
